@@ -71,12 +71,148 @@ class PathSlicer(T.Slicer):
             self._memo = saved
 
 
-def enumerate_paths(body, start=0, max_paths=2000, stop=None, loop_once=True):
-    """Acyclic block paths from start to a return (or to a block in `stop`). Back edges are not followed."""
+class VariantState:
+    """Forward tracking, along ONE block path, of locals whose enum variant / boolean / integer value is fixed by the path so far.
+
+    It exists to discard correlated-branch paths that no execution takes: `let r = if c { Some(x) } else { None }; match r {..}`,
+    `helper()?` after the helper's MIR was inlined (its `return Err(e)` reaches the caller's `?`), `flag = true; .. if flag`.
+    Only facts that hold on every execution of the path are recorded:
+      agg of an enum variant / constant / copy or move of a tracked local           -> the value
+      Try::branch(x)        x: Ok|Some -> Continue,  x: Err|None -> Break             (core::ops::Try for Result and Option)
+      FromResidual::from_residual(..)  -> Err (Result destination) / None (Option destination)
+      discriminant(x), Not(x) of a tracked value
+    A local whose address is taken mutably, or that is written in any other way, is forgotten."""
+    BRANCH = {"Ok": "Continue", "Some": "Continue", "Err": "Break", "None": "Break"}
+
+    def __init__(self, body):
+        self.body = body
+        self.val = {}
+        self.escaped = set()
+
+    def copy(self):
+        n = VariantState(self.body)
+        n.val = dict(self.val)
+        n.escaped = set(self.escaped)
+        return n
+
+    def _op(self, o):
+        p = o.get("c") or o.get("m")
+        if p is not None:
+            if not p["pr"]:
+                return self.val.get(p["l"])
+            return None
+        k = o.get("k")
+        if isinstance(k, dict):
+            v = k.get("v")
+            if isinstance(v, dict):
+                if "bool" in v:
+                    return ("bool", bool(v["bool"]))
+                if "int" in v and isinstance(v["int"], int):
+                    return ("int", v["int"])
+        return None
+
+    def _set(self, l, v):
+        if v is None or l in self.escaped:
+            self.val.pop(l, None)
+        else:
+            self.val[l] = v
+
+    def stmt(self, s):
+        p = s["p"]
+        l = p["l"]
+        if s["k"] == "setdiscr":
+            self.val.pop(l, None)
+            return
+        r = s["r"]
+        if r["k"] in ("ref", "rawptr") and r.get("bk") != "shared" and r.get("bk") != "fake":
+            q = r["p"]
+            if not q["pr"] or q["pr"][0] != "*":
+                self.escaped.add(q["l"])
+                self.val.pop(q["l"], None)
+        if p["pr"]:
+            # a write into a field of the active variant keeps the variant; a write through a pointer does not concern the local
+            if p["pr"][0] != "*" and not (isinstance(p["pr"][0], dict) and "dc" in p["pr"][0]):
+                cur = self.val.get(l)
+                if cur is not None and cur[0] != "variant":
+                    self.val.pop(l, None)
+            return
+        v = None
+        if r["k"] == "use":
+            v = self._op(r["o"])
+        elif r["k"] == "agg" and r.get("ak") == "adt" and r.get("variant") is not None and "vi" in r:
+            v = ("variant", r["variant"])
+        elif r["k"] == "discr":
+            q = r["p"]
+            cur = self.val.get(q["l"]) if not q["pr"] else None
+            if cur is not None and cur[0] == "variant" and r.get("variants"):
+                for d, name in r["variants"]:
+                    if name == cur[1]:
+                        v = ("int", d)
+        elif r["k"] == "unop" and r.get("op") == "Not":
+            cur = self._op(r["o"])
+            if cur is not None and cur[0] == "bool":
+                v = ("bool", not cur[1])
+        elif r["k"] == "cast":
+            cur = self._op(r["o"])
+            if cur is not None and cur[0] == "int" and r.get("ck", "").startswith("IntToInt"):
+                v = cur
+        self._set(l, v)
+
+    def call(self, t):
+        d = t["dest"]
+        name = callee_of(t)
+        v = None
+        if not d["pr"]:
+            if name.endswith("::branch") and "Try" in name and t["args"]:
+                cur = self._op(t["args"][0])
+                if cur is not None and cur[0] == "variant" and cur[1] in self.BRANCH:
+                    v = ("variant", self.BRANCH[cur[1]])
+            elif name.endswith("::from_residual") and "FromResidual" in name:
+                ty = self.body.locals[d["l"]]["ty"]
+                if ty.startswith(("std::result::Result<", "core::result::Result<", "Result<")):
+                    v = ("variant", "Err")
+                elif ty.startswith(("std::option::Option<", "core::option::Option<", "Option<")):
+                    v = ("variant", "None")
+            self._set(d["l"], v)
+        # arguments moved into a call are dead; locals lent mutably were marked escaped at the borrow
+        for a in t["args"]:
+            if "m" in a and not a["m"]["pr"]:
+                pass
+
+    def edge_ok(self, t, succ):
+        """May the path leave a switch terminator through `succ`?"""
+        cur = self._op(t["discr"])
+        if cur is None or cur[0] not in ("int", "bool"):
+            return True
+        x = int(cur[1]) if cur[0] == "bool" else cur[1]
+        tgt = None
+        for v, b in t["arms"]:
+            if v == x:
+                tgt = b
+        if tgt is None:
+            tgt = t["otherwise"]
+        return succ == tgt
+
+    def block(self, b):
+        blk = self.body.blocks[b]
+        for s in blk["s"]:
+            self.stmt(s)
+        t = blk["t"]
+        if t["k"] == "call":
+            self.call(t)
+
+
+def enumerate_paths(body, start=0, max_paths=2000, stop=None, loop_once=True, prune=True):
+    """Block paths from start to a return (or to a block in `stop`); a block is entered at most twice (once with loop_once=False).
+    With `prune` (default) an edge that contradicts a value fixed earlier on the same path (VariantState) is not taken."""
     out = []
-    st = [(start, [start])]
+    st0 = None
+    if prune:
+        st0 = VariantState(body)
+        st0.block(start)
+    st = [(start, [start], st0)]
     while st:
-        b, trail = st.pop()
+        b, trail, vs = st.pop()
         if len(out) >= max_paths:
             return out, True
         t = body.blocks[b]["t"]
@@ -89,7 +225,13 @@ def enumerate_paths(body, start=0, max_paths=2000, stop=None, loop_once=True):
         for s in reversed(ss):
             if trail.count(s) >= (2 if loop_once else 1):
                 continue
-            st.append((s, trail + [s]))
+            nvs = None
+            if vs is not None:
+                if t["k"] == "switch" and not vs.edge_ok(t, s):
+                    continue
+                nvs = vs.copy() if len(ss) > 1 else vs
+                nvs.block(s)
+            st.append((s, trail + [s], nvs))
     return out, False
 
 
